@@ -8,7 +8,7 @@ from ..sym import Sym
 
 def value_display(ctx, rule="VALUE-LIT"):
     prog = ctx.prog
-    ctx.rule(rule, "Display for Value prints NULL only for Value::Null, and a string literal for every Value::Str whatever its content (the empty string is a string: "
+    ctx.rule(rule, "Display for Value never prints NULL for a Value::Str, and prints a string literal for every Value::Str whatever its content (the empty string is a string: "
                    "`S = \"\"` and `S = NULL` select different rows)")
     f = prog.fn("msi::<internal::value::Value as std::fmt::Display>::fmt")
     S = Sym(prog, f)
@@ -19,11 +19,24 @@ def value_display(ctx, rule="VALUE-LIT"):
         txt = " ".join(args)
         if "s:'NULL'" in txt:
             n += 1
-            arm = [tr for (e, tr, g) in S.bool_facts_at(b) if re.fullmatch(r"discr\(\**p1\)", e)]
-            if not arm or arm[-1] != ("==", vs.get("Null")):
-                bad.append("NULL printed under %s" % (arm[-1:] or "no variant test"))
-    extra = [e[:60] for bl in f.blocks if not bl["cleanup"] and bl["term"]["t"] == "switch" for e in [S.val(bl["term"]["discr"])]
-             if not re.fullmatch(r"discr\(\**p1\)", e) and "Try" not in e and not re.fullmatch(r"_\d+", e)]
+            left = set(vs.values())
+            for (e, tr, g) in S.bool_facts_at(b):
+                if not re.fullmatch(r"discr\(\**p1\)", e) or not isinstance(tr, tuple):
+                    continue
+                if tr[0] == "==":
+                    left &= {tr[1]}
+                elif tr[0] == "!=":
+                    left -= {tr[1]}
+                elif tr[0] == "notin":
+                    left -= set(tr[1])
+                elif tr[0] == "in":
+                    left &= set(tr[1])
+            # (an Int arm excluded through a helper such as as_int() is not visible in these facts; what the rule decides is that no *string* is printed as NULL)
+            if vs.get("Str") in left or vs.get("Null") not in left:
+                names = sorted(k for k, v in vs.items() if v in left)
+                bad.append("NULL printed for %s" % names)
+    extra = [e[:60] for g in prog.unit(f) for Sg in [S if g is f else Sym(prog, g)] for bl in g.blocks if not bl["cleanup"] and bl["term"]["t"] == "switch"
+             for e in [Sg.val(bl["term"]["discr"])] if "@Str.0" in e and re.search(r"is_empty|::len\(|PartialEq|s:''", e)]
     ctx.check(n >= 1 and not bad and not extra, rule, "NULL is printed for Value::Null only; no test on a value's content", "%d NULL site(s)" % n,
               "Display for Value %s%s: a literal is printed as a different literal (for instance \"\" as NULL), so the printed query selects other rows" % (
                   "; ".join(bad), " branches on %s" % extra if extra else ""), f.loc(), fn=f.name, key=rule)
@@ -74,8 +87,17 @@ def lpstr_exact(ctx, rule="LPSTR-EXACT"):
     prog = ctx.prog
     ctx.rule(rule, "PropertyValue::read hands the bytes of a string property to the decoder as they were read: nothing pops, truncates or trims them (a stored string may end in U+0000)")
     f = prog.fn("msi::internal::propset::PropertyValue::read")
-    post = sorted({cname(prog, t).rsplit("::", 1)[-1] for g in prog.unit(f) for b, t in g.calls()
-                   if re.search(r"(Vec::<T, A>::(pop|truncate|retain|drain|split_off|dedup\w*)|<impl \[T\]>::(trim\w*|strip_\w+|split\w*|last|ends_with)|<impl str>::trim\w*)$", cname(prog, t))})
+    ALWAYS = r"(Vec::<T, A>::(retain|dedup\w*)|<impl \[T\]>::(trim\w*|strip_suffix|rsplit\w*|split_last)|<impl str>::trim\w*)$"
+    IN_LOOP = r"(Vec::<T, A>::(pop|truncate|drain|split_off|remove)|<impl \[T\]>::(last|ends_with))$"
+    post = set()
+    for g in prog.unit(f):
+        inloop = set().union(*cfg.natural_loops(g).values()) if cfg.natural_loops(g) else set()
+        for b, t in g.calls():
+            n = cname(prog, t)
+            # one removal of the terminator that was read with the text is the format's; removal that repeats, or that looks at the bytes' values, is not
+            if re.search(ALWAYS, n) or (re.search(IN_LOOP, n) and b in inloop):
+                post.add(n.rsplit("::", 1)[-1])
+    post = sorted(post)
     ctx.check(not post, rule, "string bytes reach the decoder unchanged", "", "PropertyValue::read post-processes the bytes of a string property with %s: trailing bytes that were "
               "written are lost on reopen" % post, f.loc(), fn=f.name, key=rule)
 
@@ -92,7 +114,8 @@ def table_name_gate(ctx, rule="TABLE-NAME-GATE"):
     bad = []
     for c in ins:
         v = c[2][1].lstrip("&*")
-        if not any(tr is True and "streamname::is_valid(" in e and v[:60] in e for (e, tr, g) in S.bool_facts_at(c[0])):
+        # the admitted value is the validated name or a copy of it (to_string / to_owned / clone): the gate need only hold, with is_table = true, where the name is admitted
+        if not any(tr is True and "streamname::is_valid(" in e and e.rstrip(")").endswith("c:1") for (e, tr, g) in S.bool_facts_at(c[0])):
             bad.append(v[:80])
     ctx.check(bool(gates) and not bad, rule, "table names from the file are validated", "%d gate(s), %d admission site(s)" % (len(gates), len(ins)),
               "Package::open admits a table name from _Tables without streamname::is_valid(name, true) (%s): a file naming a table `F:o`, or one with a name of more than 31 encoded "
@@ -122,7 +145,7 @@ def language_list_total(ctx, rule="LANGLIST-ALL"):
             if bl["cleanup"] or bl["term"]["t"] != "switch":
                 continue
             v = Sg.val(bl["term"]["discr"])
-            if re.search(r"Language::code|@Language|\.0 (Eq|Ne|Lt|Le|Gt|Ge) c:|p\d+\.0\b.*c:\d", v):
+            if re.search(r"Language::code|language::Language", v):
                 picky.append(v[:70])
     ctx.check(not drop and not picky, rule, "every language of the list is written", "", "Value::from(&[Language]) leaves languages out (%s %s): a list of neutral languages becomes the "
               "empty string, which a Language column refuses" % (drop, picky), f.loc(), fn=f.name, key=rule)
